@@ -4,20 +4,20 @@
 From PV Require Import Base.Tac DType.DTypeDefs Reshape.ReshapeDefs.
 Local Open Scope Z_scope.
 
-Definition leaf : cls := {| c_R := 1; c_mod := false; c_in := InT 0 0 0 0; c_outs := [] |}.
+Definition leaf : cls := {| c_R := 1; c_mod := false; c_in := InT 0 0 0 0; c_outs := []; c_in2 := None; c_bfirst := false |}.
 
 (* one rank, 3 x 3 tiles of 4-byte elements:
      C0(k): RW A <- descA(k)   -> A C1(k) [type = LOWER_TILE]   -> A C2(k) [type = UPPER_TILE]
      C1(k): READ A <- A C0(k)          C2(k): READ A <- A C0(k)                                   *)
 Definition P_stale (fixed : bool) : prog :=
   {| p_nranks := 1; p_mb := 3; p_esz := 4; p_nt := 1; p_owner := [0; 0; 0];
-     p_cls := [ {| c_R := 1; c_mod := false; c_in := InD 0 0; c_outs := [OutE 1 2 0; OutE 2 3 0] |}; leaf; leaf ];
+     p_cls := [ {| c_R := 1; c_mod := false; c_in := InD 0 0; c_outs := [OutE 1 2 0; OutE 2 3 0]; c_in2 := None; c_bfirst := false |}; leaf; leaf ];
      p_fixed := fixed |}.
 
 (*   C0(k): RW A <- descA(k)   -> A C1(k) [type = LOWER_TILE]   -> A C2(k) [type = DEFAULT] *)
 Definition P_crash (fixed : bool) : prog :=
   {| p_nranks := 1; p_mb := 3; p_esz := 4; p_nt := 1; p_owner := [0; 0; 0];
-     p_cls := [ {| c_R := 1; c_mod := false; c_in := InD 0 0; c_outs := [OutE 1 2 0; OutE 2 1 0] |}; leaf; leaf ];
+     p_cls := [ {| c_R := 1; c_mod := false; c_in := InD 0 0; c_outs := [OutE 1 2 0; OutE 2 1 0]; c_in2 := None; c_bfirst := false |}; leaf; leaf ];
      p_fixed := fixed |}.
 
 (* the copy and the content instance (c, k, r) saw at body entry *)
